@@ -40,27 +40,52 @@ def make_overlay(harness_files):
     return d
 
 
+def _verdict(block):
+    status = "unknown"
+    if "VERIFICATION:- SUCCESSFUL" in block:
+        status = "success"
+    elif "VERIFICATION:- FAILED" in block:
+        status = "failed"
+    m = re.search(r"\*\* (\d+) of (\d+) failed", block)
+    t = re.search(r"Verification Time: ([\d.]+)s", block)
+    failed_checks = re.findall(r"Failed Checks: (.*)", block)
+    return {"status": status, "checks": int(m.group(2)) if m else None, "failed": int(m.group(1)) if m else None,
+            "solver_s": float(t.group(1)) if t else None, "failed_checks": failed_checks[:10],
+            "unwinding_failure": "unwinding assertion" in " ".join(failed_checks),
+            "stubs": re.findall(r"- Stub: (.*)", block)}
+
+
 def parse_kani_output(out):
     res = {}
-    # per-harness blocks start with "Checking harness <name>..."
+    if re.search(r"^Thread \d+: Checking harness", out, re.M):
+        # parallel (-j) format: "Thread N: Checking harness X..." ... "Thread N: " + result block
+        cur = {}
+        lines = out.split("\n")
+        i = 0
+        while i < len(lines):
+            m = re.match(r"Thread (\d+): Checking harness ([\w:]+)", lines[i])
+            if m:
+                cur[m.group(1)] = m.group(2).split("::")[-1]
+                i += 1
+                continue
+            m = re.match(r"Thread (\d+):\s*$", lines[i])
+            if m and m.group(1) in cur:
+                j = i + 1
+                blk = []
+                while j < len(lines) and not re.match(r"Thread \d+:", lines[j]):
+                    blk.append(lines[j])
+                    j += 1
+                v = _verdict("\n".join(blk))
+                if v["status"] != "unknown":
+                    res[cur[m.group(1)]] = v
+                i = j
+                continue
+            i += 1
+        return res
     blocks = re.split(r"Checking harness ", out)
     for b in blocks[1:]:
         name = re.match(r"([\w:]+)", b).group(1).split("::")[-1]
-        status = "unknown"
-        if "VERIFICATION:- SUCCESSFUL" in b:
-            status = "success"
-        elif "VERIFICATION:- FAILED" in b:
-            status = "failed"
-        m = re.search(r"\*\* (\d+) of (\d+) failed", b)
-        checks = int(m.group(2)) if m else None
-        failed = int(m.group(1)) if m else None
-        t = re.search(r"Verification Time: ([\d.]+)s", b)
-        failed_checks = re.findall(r"Failed Checks: (.*)", b)
-        unwind_fail = "unwinding assertion" in " ".join(failed_checks)
-        res[name] = {"status": status, "checks": checks, "failed": failed,
-                     "solver_s": float(t.group(1)) if t else None,
-                     "failed_checks": failed_checks[:10], "unwinding_failure": unwind_fail,
-                     "stubs": re.findall(r"- Stub: (.*)", b)}
+        res[name] = _verdict(b)
     return res
 
 
